@@ -44,8 +44,6 @@ def parseI64 (s : String) : Option Int64 :=
 def builtinNames : List String :=
   ["Int", "Float", "String", "Array", "List", "Table", "Tree", "Tuple", "Ref", "Box", "Type", "Range", "Slice", "File"]
 
-def probeSizes : List Nat := [1, 4, 8, 12, 16, 40]
-
 def isLive (st : Store) (id : Nat) : Bool := (st.get id).isSome
 
 def nameOk (s : String) : Bool :=
@@ -86,8 +84,20 @@ def parseSpec (st : Store) (s : String) : Option Scalar :=
 def tyCode : Ty → String
   | .int => "I" | .float => "F" | .str => "S" | .typ => "T" | .ref => "r" | .box => "b" | .raw k => toString k
 
+/-- element / key / value type codes: Int, String, Float (not as a key), and the plain-struct probe types by their digit -/
 def parseTy (s : String) (allowFloat : Bool) : Option Ty :=
-  if s = "I" then some .int else if s = "S" then some .str else if s = "F" && allowFloat then some .float else none
+  if s = "I" then some .int else if s = "S" then some .str else if s = "F" && allowFloat then some .float
+  else match s.toList with
+    | [c] => if '0' ≤ c ∧ c.toNat < '0'.toNat + probeSizes.length then some (.raw (c.toNat - '0'.toNat)) else none
+    | _ => none
+
+/-- Tree key / value types are kept to sizes that are multiples of 8 (known finding KF-C19-tree-misaligned-header) -/
+def treeTyOk : Ty → Bool
+  | .raw k => rawSize k % 8 == 0
+  | _ => true
+
+/-- the layout of a sequence of `ety` elements (only the element width matters) -/
+def seqLayout (ety : Ty) : Layout := layoutOf .int ety
 
 def dumpScalar : Scalar → String
   | .int v => s!"i:{v.toInt}"
@@ -111,7 +121,7 @@ def dumpVal (st : Store) : Val → String
   | .seq .list ety items => s!"L:{tyCode ety}[{",".intercalate (items.map dumpScalar)}]"
   | .tuple ids => s!"U[{",".intercalate (ids.map fun i => match st.scalar i with | some s => dumpScalar s | none => "?")}]"
   | .table kt vt t => s!"T:{tyCode kt}{tyCode vt}\{{t.nslots}|{dumpSlots t}}"
-  | .tree kt vt es => s!"R:{tyCode kt}{tyCode vt}\{{",".intercalate (es.map fun e => s!"{dumpScalar e.1}={dumpScalar e.2}")}}"
+  | .tree kt vt t => s!"R:{tyCode kt}{tyCode vt}\{{",".intercalate (t.toList.map fun e => s!"{dumpScalar e.1}={dumpScalar e.2}")}}"
 
 /-- model addresses: injective in the object id -/
 def addr (t : Nat) : Bytes :=
@@ -126,7 +136,7 @@ def hasPtr (st : Store) : Val → Bool
   | .seq _ _ items => items.any isPtr
   | .tuple ids => ids.any fun i => match st.scalar i with | some s => isPtr s | none => false
   | .table _ _ t => t.entries.any fun e => isPtr e.1
-  | .tree _ _ es => es.any fun e => isPtr e.1
+  | .tree _ _ t => t.toList.any fun e => isPtr e.1
 
 def hashStr (st : Store) (v : Val) : String :=
   if hasPtr st v then "@" else hex16 (valHash addr st v)
@@ -212,6 +222,18 @@ structure Stats where
   treeBad : Nat := 0
   tableStates : Nat := 0
   tableBad : Nat := 0
+  unsized : Nat := 0          -- container states holding an element that does not fill the words of its type
+  treeReloc : Nat := 0        -- Tree removals of a node with two children (in the model's shape): the neighbour is relocated
+  wideMoves : Nat := 0        -- Table removals / Array shifts on elements of more than one word
+
+/-- does the node holding a key eq to `k` have two children? -/
+def twoChildren (addr : Nat → Bytes) : Sh → Scalar → Bool
+  | .nil, _ => false
+  | .node l e r, k =>
+    match scalarCmp addr e.1 k with
+    | some c => if c = 0 then (match l, r with | .node .., .node .. => true | _, _ => false)
+                else if c < 0 then twoChildren addr l k else twoChildren addr r k
+    | none => false
 
 def tableDisplaced (t : Table) : Bool :=
   (List.range t.slots.size).any fun i => match t.slots.getD i none with
@@ -262,8 +284,9 @@ def step (st : Store) (stats : Stats) (toks : List String) : IO (Store × Stats)
               | k :: v :: rest => (k, v) :: mk rest
               | _ => []
             let es := mk ss
+            if op = "tre" && !(treeTyOk kt && treeTyOk vt) then bad else
             if es.all (fun e => e.1.ty = kt && e.2.ty = vt) then
-              let v := if op = "tab" then Val.table kt vt (tableOfEntries addr es) else Val.tree kt vt (treeOfEntries addr es)
+              let v := if op = "tab" then Val.table kt vt (tableOfEntriesW addr (layoutOf kt vt) es) else Val.tree kt vt (shOfEntries addr es)
               let st := bind st id ⟨c, v⟩
               observe st op id none; return (st, stats)
             else bad
@@ -340,7 +363,9 @@ def step (st : Store) (stats : Stats) (toks : List String) : IO (Store × Stats)
           return (st, { stats with eqPairs := stats.eqPairs + 1 })
         | _, _ => bad
       | _, _ => bad
-    else if op = "copy" || op = "assign" then
+    else if op = "copy" || op = "assign" || op = "hcopy" || op = "hassign" then
+      let nocmp := op.startsWith "h"
+      let iscopy := op = "copy" || op = "hcopy"
       match parseId a, parseId b with
       | some y, some x =>
         if x = y then bad else
@@ -348,25 +373,25 @@ def step (st : Store) (stats : Stats) (toks : List String) : IO (Store × Stats)
         | none => bad
         | some ox =>
           let target : Option (Cls × Val) :=
-            if op = "copy" then (if isLive st y then none else some (.heap, blankOf ox.val))
+            if iscopy then (if isLive st y then none else some (.heap, blankOf ox.val))
             else match st.get y with
               | some oy => if assignAllowed oy.val ox.val then some (oy.cls, oy.val) else none
               | none => none
           match target with
           | none => bad
           | some (cls, self) =>
-            let r := if op = "copy" then copyVal addr st ox.val else assignVal addr st cls self ox.val
-            match r, op with
-            | .error e, "copy" => IO.println s!"O copy {y} {x} {e.name}"; return (st, stats)
+            let r := if iscopy then copyVal addr st ox.val else assignVal addr st cls self ox.val
+            match r, iscopy with
+            | .error e, true => IO.println s!"O {op} {y} {x} {e.name}"; return (st, stats)
             | _, _ =>
               let (st, e) := match r with
-                | .ok v => (if op = "copy" then bind st y ⟨.heap, v⟩ else setVal st y v, none)
+                | .ok v => (if iscopy then bind st y ⟨.heap, v⟩ else setVal st y v, none)
                 | .error e => (st, some e)
               match st.get y with
               | none => bad
               | some oy =>
                 let cs :=
-                  if !cmpAllowed st oy.val ox.val then "-" else
+                  if nocmp || !cmpAllowed st oy.val ox.val then "-" else
                   match valCmp addr st oy.val ox.val with
                   | none => "TypeError"
                   | some c => if hasPtr st ox.val then (if c = 0 then "0" else "ne") else toString (sign c)
@@ -426,7 +451,9 @@ where
             if kind = .array then
               let j := normIdx n i 1
               if j < 0 || j > n then do observe st op cid (some .indexError); return (st, stats)
-              else let st := setVal st cid (.seq kind ety (insertAt items j.toNat s)); observe st op cid none; return (st, stats)
+              else
+                let st := setVal st cid (.seq kind ety (arrayPushAt (seqLayout ety) items j.toNat s)); observe st op cid none
+                return (st, { stats with wideMoves := stats.wideMoves + (if tyWords ety > 1 then 1 else 0) })
             else
               if i = 0 then let st := setVal st cid (.seq kind ety (s :: items)); observe st op cid none; return (st, stats)
               else
@@ -469,7 +496,10 @@ where
         | none => observe st op cid (some .indexError); return (st, stats)
         | some p =>
           match v with
-          | .seq kind ety items => let st := setVal st cid (.seq kind ety (removeAt items p)); observe st op cid none; return (st, stats)
+          | .seq .array ety items =>
+            let st := setVal st cid (.seq .array ety (arrayPopAt (seqLayout ety) items p)); observe st op cid none
+            return (st, { stats with wideMoves := stats.wideMoves + (if tyWords ety > 1 then 1 else 0) })
+          | .seq .list ety items => let st := setVal st cid (.seq .list ety (removeAt items p)); observe st op cid none; return (st, stats)
           | .tuple ids =>
             if cls = .stack then do observe st op cid (some .valueError); return (st, stats)
             else let st := setVal st cid (.tuple (removeAt ids p)); observe st op cid none; return (st, stats)
@@ -485,8 +515,11 @@ where
         | .sc _ => bad
         | .seq kind ety items =>
           if s.ty ≠ ety then bad else
-          match remFirst (fun e => keyEq addr e s) items with
-          | some items' => let st := setVal st cid (.seq kind ety items'); observe st "rem" cid none; return (st, stats)
+          -- Array_Rem / List_Rem: the first element eq to the argument is popped (Array: `Array_Pop_At` with its memmove)
+          match items.findIdx? (fun e => keyEq addr e s) with
+          | some i =>
+            let items' := if kind = .array then arrayPopAt (seqLayout ety) items i else removeAt items i
+            let st := setVal st cid (.seq kind ety items'); observe st "rem" cid none; return (st, stats)
           | none => observe st "rem" cid (some .valueError); return (st, stats)
         | .tuple ids =>
           match ids.mapM st.scalar with
@@ -502,13 +535,19 @@ where
             | none => observe st "rem" cid (some .valueError); return (st, stats)
         | .table kt vt t =>
           if s.ty ≠ kt then bad else
-          match tableRem addr t s with
-          | some t' => let st := setVal st cid (.table kt vt t'); observe st "rem" cid none; return (st, stats)
+          match tableRemW addr (layoutOf kt vt) t s with
+          | some t' =>
+            let st := setVal st cid (.table kt vt t'); observe st "rem" cid none
+            return (st, { stats with wideMoves := stats.wideMoves + (if tyWords kt + tyWords vt > 2 then 1 else 0) })
           | none => observe st "rem" cid (some .keyError); return (st, stats)
-        | .tree kt vt es =>
+        | .tree kt vt t =>
           if s.ty ≠ kt then bad else
-          match treeRem addr es s with
-          | some es' => let st := setVal st cid (.tree kt vt es'); observe st "rem" cid none; return (st, stats)
+          match shRem addr (layoutOf kt vt) t s with
+          | some t' =>
+            let st := setVal st cid (.tree kt vt t'); observe st "rem" cid none
+            -- a node was unlinked other than the one found: the removed key's node had two children
+            let reloc := twoChildren addr t s
+            return (st, { stats with treeReloc := stats.treeReloc + (if reloc then 1 else 0) })
           | none => observe st "rem" cid (some .keyError); return (st, stats)
       | none => bad
     | _, _ => bad
@@ -537,9 +576,9 @@ where
         | .table kt vt t =>
           if n = 0 then let st := setVal st cid (.table kt vt Table.empty); observe st op cid none; return (st, stats)
           else if n < t.nitems then do observe st op cid (some .formatError); return (st, stats)
-          else let st := setVal st cid (.table kt vt (rehash addr t (idealSize n))); observe st op cid none; return (st, stats)
+          else let st := setVal st cid (.table kt vt (rehashW addr (layoutOf kt vt) t (idealSize n))); observe st op cid none; return (st, stats)
         | .tree kt vt _ =>
-          if n = 0 then let st := setVal st cid (.tree kt vt []); observe st op cid none; return (st, stats)
+          if n = 0 then let st := setVal st cid (.tree kt vt .nil); observe st op cid none; return (st, stats)
           else observe st op cid (some .formatError); return (st, stats)
       | none => bad
     | _, _ => bad
@@ -566,13 +605,13 @@ def stepSet (st : Store) (c k v : String) : IO Store := do
       match HashDrv.parseSpec st k, HashDrv.parseSpec st v with
       | some ks, some vs =>
         if ks.ty ≠ kt || vs.ty ≠ vt then bad else
-        let st := HashDrv.setVal st cid (.table kt vt (tableSet HashDrv.addr t ks vs)); HashDrv.observe st "set" cid none; return st
+        let st := HashDrv.setVal st cid (.table kt vt (tableSetW HashDrv.addr (layoutOf kt vt) t ks vs)); HashDrv.observe st "set" cid none; return st
       | _, _ => bad
     | some ⟨_, .tree kt vt es⟩ =>
       match HashDrv.parseSpec st k, HashDrv.parseSpec st v with
       | some ks, some vs =>
         if ks.ty ≠ kt || vs.ty ≠ vt then bad else
-        let st := HashDrv.setVal st cid (.tree kt vt (treeSet HashDrv.addr es ks vs)); HashDrv.observe st "set" cid none; return st
+        let st := HashDrv.setVal st cid (.tree kt vt (shSet HashDrv.addr es ks vs)); HashDrv.observe st "set" cid none; return st
       | _, _ => bad
     | _ => bad
 
@@ -592,15 +631,24 @@ def main (args : List String) : IO Unit := do
     | _ =>
       let (s, t) ← HashDrv.step st stats toks
       st := s; stats := t
-    -- every Tree of the store satisfies the invariant the copy/assign theorems assume of their source (sampled every 16 ops)
+    -- the containers this op names satisfy the invariants the copy/assign/history/move theorems assume of them: a Tree iterates in
+    -- strictly descending key order, a Table holds no two eq keys, every element fills the words of its type
+    -- (sampled: every 4th op, every 16th for containers of more than 32 elements)
     nops := nops + 1
-    if nops % 16 != 0 then continue
-    for o in st do
-      match o with
-      | some ⟨_, .tree _ _ es⟩ =>
-        stats := { stats with treeStates := stats.treeStates + 1, treeBad := stats.treeBad + (if treeSeqB HashDrv.addr es then 0 else 1) }
-      | some ⟨_, .table _ _ t⟩ =>
+    if nops % 4 != 0 then continue
+    for id in ((toks.drop 1).take 2).filterMap HashDrv.parseId do
+      match st.get id with
+      | some ⟨_, .tree kt vt t⟩ =>
+        let es := t.toList
+        if es.length > 32 && nops % 16 != 0 then continue
+        stats := { stats with treeStates := stats.treeStates + 1, treeBad := stats.treeBad + (if treeSeqAdjB HashDrv.addr es then 0 else 1),
+                              unsized := stats.unsized + (if es.all (entrySizedB (layoutOf kt vt)) then 0 else 1) }
+      | some ⟨_, .table kt vt t⟩ =>
+        if t.nitems > 32 && nops % 16 != 0 then continue
         stats := { stats with tableStates := stats.tableStates + 1,
-                              tableBad := stats.tableBad + (if entryKeysDistinctB HashDrv.addr t.entries && t.slots.size == t.nslots then 0 else 1) }
+                              tableBad := stats.tableBad + (if entryKeysDistinctB HashDrv.addr t.entries && t.slots.size == t.nslots then 0 else 1),
+                              unsized := stats.unsized + (if t.entriesInSlotOrder.all (slotSizedB (layoutOf kt vt)) then 0 else 1) }
+      | some ⟨_, .seq _ ety items⟩ =>
+        stats := { stats with unsized := stats.unsized + (if items.all (sizedB (tyWords ety)) then 0 else 1) }
       | _ => pure ()
-  IO.println s!"S eq_pairs={stats.eqPairs} eq_zero={stats.eqZero} copies={stats.copies} swaps={stats.swaps} displaced_tables={stats.displaced} tree_states={stats.treeStates} tree_not_descending={stats.treeBad} table_states={stats.tableStates} table_keys_not_distinct={stats.tableBad}"
+  IO.println s!"S eq_pairs={stats.eqPairs} eq_zero={stats.eqZero} copies={stats.copies} swaps={stats.swaps} displaced_tables={stats.displaced} tree_states={stats.treeStates} tree_not_descending={stats.treeBad} table_states={stats.tableStates} table_keys_not_distinct={stats.tableBad} unsized_states={stats.unsized} tree_relocations={stats.treeReloc} wide_moves={stats.wideMoves}"
